@@ -27,7 +27,7 @@ import re
 from concurrent.futures import ThreadPoolExecutor
 
 from rkstatic.x_intalg import (Lin, LinEnv, access_path, bool_atom, cast_chain, clean_type, cmp_atom, const_value,
-                               fmt_intervals, irange, is_signed, ite_atom, leaf, lin, negate_cmp, path_str, preserved)
+                               fmt_intervals, irange, is_signed, ite_atom, leaf, lin, negate_cmp, path_str, preserved, flow, clip)
 
 LEVEL = 'other'
 EXPLANATION = (
@@ -538,6 +538,45 @@ def range_for_signs(ct, signs):
 # =====================================================================================================
 #  R-C01-1 / R-C01-2 / R-C01-3 on detail::parallel_for_impl and parallel_for
 # =====================================================================================================
+def storage_of(tu, e, fn, depth=0):
+    """('auto'|'static'|'thread'|None, description) of the object an lvalue expression designates: 'auto' = automatic variable
+    of function fn (lives for one call), 'static'/'thread' = static / thread storage duration (survives the call).
+    Calls of inlinable functions that return a reference are followed to what they return."""
+    n = leaf(tu, e)
+    if n is None or depth > 3:
+        return None, '?'
+    k = n.get('kind')
+    if k == 'DeclRefExpr':
+        did = n.get('referencedDecl', {}).get('id')
+        vd = tu.node(did)
+        name = n.get('referencedDecl', {}).get('name', '?')
+        if vd is None or vd.get('kind') != 'VarDecl':
+            return None, name            # parameter, binding, or a declaration outside the analysed tree
+        if vd.get('tls'):
+            return 'thread', '`%s` (thread_local)' % name
+        enc = tu.enclosing_fn(vd)
+        if enc is None:
+            return 'static', '`%s` (namespace scope)' % name
+        if vd.get('storageClass') in ('static', 'extern'):
+            return 'static', '`%s` (a static local of %s)' % (name, enc.get('name', '?'))
+        if (vd.get('type') or {}).get('qualType', '').rstrip().endswith('&'):
+            ks = tu.kids(vd)
+            return storage_of(tu, ks[0], fn, depth + 1) if ks else (None, name)
+        return ('auto', '`%s`' % name) if enc.get('id') == fn.get('id') or enc.get('id') == fn.get('pat') or \
+            tu.enclosing_fn(n) is not None and tu.enclosing_fn(n).get('id') == enc.get('id') else (None, name)
+    if k in CALLS:
+        cf = inlinable(tu, n)
+        if cf is None:
+            return None, tu.show(n)
+        rets = [x for b, i, x in tu.cfg(cf).stmts() if x.get('kind') == 'ReturnStmt' and tu.kids(x)]
+        res = {storage_of(tu, tu.kids(x)[0], cf, depth + 1) for x in rets}
+        if len(res) == 1:
+            d, w = next(iter(res))
+            return d if d != 'auto' else None, '%s returned by %s()' % (w, tu.sd(n).get('q', '?').split('::')[-1])
+        return None, tu.show(n)
+    return None, tu.show(n)
+
+
 def readonly_param(tu, f, p, allow_omp=True):
     """None if the parameter is only read by value, else a description of the offending use"""
     for r in refs_to(tu, f, p['id']):
@@ -652,6 +691,26 @@ def check_impl(ctx, tu, f, cfgname, chains):
                     und.append('last index `%s` of tbb::parallel_for is not recognised as the count' % tu.show(args[1]))
             if len(args) <= fi or obj_path(tu, args[fi]) != fpath:
                 und.append('function argument of tbb::parallel_for is not the functor parameter')
+            # further arguments: a partitioner only steers the schedule; a task_group_context carries cancellation and a
+            # captured exception, i.e. state that decides whether the loop runs at all - it has to be private to this call
+            for ai in range(fi + 1, len(args)):
+                pt = clean_type(ptypes[ai]) if ai < len(ptypes) else ''
+                if 'partitioner' in pt:
+                    continue
+                if 'task_group_context' in pt:
+                    dur, what_ = storage_of(tu, args[ai], f)
+                    if dur == 'auto':
+                        continue
+                    if dur in ('static', 'thread'):
+                        problems.append(('tbb-shared-context',
+                                         'tbb::parallel_for is given the task_group_context %s, which has %s storage duration and is '
+                                         'shared by all calls: cancellation and the exception captured from one loop whose body threw stay '
+                                         'in it across calls, so every later loop runs no iteration at all; the context must be an '
+                                         'automatic object of this call (or omitted)' % (what_, dur), n))
+                    else:
+                        und.append('cannot determine the lifetime of the task_group_context argument `%s`' % tu.show(args[ai]))
+                else:
+                    und.append('unrecognised extra argument `%s` of tbb::parallel_for' % tu.show(args[ai]))
             count_args.append(('tbb', through_defs(args[1]), clean_type(ptypes[1]), n))
             chains.append(dict(kind='tbb-first', node=args[0], ptype=clean_type(ptypes[0]), call=n))
         elif q == PINT:
@@ -1418,7 +1477,12 @@ def check_internal(ctx, tu, chains, summaries=None):
             if not ch or ch[-1] != pt:
                 ch = ch + [pt]
             ch_here = ch
-        internal_by_fn[f['id']] = dict(f=f, inst=inst, ctor=ctor, cnt_i=cnt_i, fun_i=fun_i, chain=ch_here, ce=ce)
+        sg_here = set()
+        for s_ in sched:
+            sg_here |= set(seen.get(s_['id'], ()))
+        internal_by_fn[f['id']] = dict(f=f, inst=inst, ctor=ctor, cnt_i=cnt_i, fun_i=fun_i, chain=ch_here, ce=ce,
+                                       param_guard=range_for_signs(clean_type(pn['ct']), sg_here or set('NZP')),
+                                       param_type=clean_type(pn['ct']), param_name=pn['name'])
     ctx.floor(R1 + '(internal)', n_int, 8, 'parallel_for_internal instantiations: one per index type of the driver')
 
     # ---- constructors of the local task classes: base size and functor member
@@ -1561,6 +1625,16 @@ def check_internal(ctx, tu, chains, summaries=None):
     return internal_by_fn
 
 
+def _merge_iv(iv):
+    out = []
+    for a, b in sorted(iv):
+        if out and a <= out[-1][1] + 1:
+            out[-1] = (out[-1][0], max(out[-1][1], b))
+        else:
+            out.append((a, b))
+    return out
+
+
 def finish_internal_chains(ctx, tu, chains, internal_by_fn):
     """compose: INDEX_T count -> parallel_for_internal parameter -> task constructor parameter -> ITaskSet(uint32_t) ->
     m_SetSize, and decide which counts arrive unchanged; then the index path back to the functor"""
@@ -1576,39 +1650,69 @@ def finish_internal_chains(ctx, tu, chains, internal_by_fn):
         if info is None or info.get('chain') is None or info.get('base_chain') is None:
             ctx.undecided(R3, inst, 'count path into the internal backend could not be followed to m_SetSize', loc)
             continue
-        ch = list(c['chain'])
+        # pipeline: conversions up to the parameter of parallel_for_internal, the guard that parameter has to pass there
+        # before a task set is scheduled, then the conversions down to m_SetSize
+        def dedupe(ts):
+            out_ = []
+            for t_ in ts:
+                if not out_ or out_[-1] != t_:
+                    out_.append(t_)
+            return out_
+        first = dedupe(list(c['chain']))
+        if first[-1] != info['param_type']:
+            first.append(info['param_type'])
+        rest = []
         for part in (info['chain'], info['base_chain']):
-            part = list(part)
-            if ch and part and part[0] == ch[-1]:
-                part = part[1:]
-            ch += part
-        # collapse consecutive duplicates
-        cc = []
-        for t in ch:
-            if not cc or cc[-1] != t:
-                cc.append(t)
+            rest += list(part)
+        rest = dedupe([first[-1]] + rest)[1:]
+        glo, ghi = info['param_guard']
+        pr_ = irange(info['param_type'])
+        guarded = pr_ is not None and (glo, ghi) != pr_
+        steps = [('conv', t_) for t_ in first[1:]]
+        if guarded:
+            steps.append(('guard', glo, ghi))
+        steps += [('conv', t_) for t_ in rest]
+        cc = first + rest
         n += 1
-        r = preserved(cc, c['lo'], c['hi'])
-        label = ' -> '.join(cc)
+        label = ' -> '.join(first) + (' [guard %s in %s]' % (info['param_name'], fmt_intervals([(glo, ghi)])) if guarded else '') + \
+            ''.join(' -> ' + t_ for t_ in rest)
+        r = flow(steps, c['lo'], c['hi']) if irange(first[0]) is not None else None
         if r is None:
             ctx.undecided(R3, inst, 'count path %s contains a non-integer type' % label, loc)
             continue
-        kept, lost = r
+        kept, altered, dropped = r
         file = tu.fn_file(c['f'])
-        if not lost:
-            ctx.ok(R3, inst + ' count to m_SetSize', '%s preserves %s' % (label, fmt_intervals(kept)), loc)
-        neg = [(a, b) for a, b in lost if b < 0]
-        big = [(a, b) for a, b in lost if b >= 0]
+        LIM = 1 << 32
+        bad_drop = clip(dropped, 1, LIM - 1)          # positive counts (below 2^32) for which nothing is scheduled at all
+        neg = clip(altered, -(1 << 200), -1)
+        mid = clip(altered, 0, LIM - 1)
+        big = clip(altered, LIM, 1 << 200) + clip(dropped, LIM, 1 << 200)
+        lost = altered + [d_ for d_ in dropped if d_[1] >= 1]
+        if not neg and not mid and not big and not bad_drop:
+            ctx.ok(R3, inst + ' count to m_SetSize', '%s preserves %s%s' % (label, fmt_intervals(kept),
+                   ('; counts %s schedule nothing' % fmt_intervals(clip(dropped, -(1 << 200), 0))) if dropped else ''), loc)
         if neg:
             ctx.violation(R3, inst + ' count to m_SetSize',
-                          'a negative count reaches the task set size through %s as a huge unsigned value (counts %s are not '
-                          'preserved and no guard excludes them): parallel_for(-1, f) runs f about 2^32 times instead of never'
-                          % (label, fmt_intervals(neg)), loc,
+                          'negative counts reach the task set size through %s as a positive value (counts %s are neither '
+                          'preserved nor excluded by a guard): %s' % (label, fmt_intervals(neg),
+                          'parallel_for(-1, f) runs f about 2^32 times instead of never' if any(a <= -1 <= b for a, b in neg)
+                          else 'parallel_for(%d, f) runs f although the count is negative' % neg[-1][1]), loc,
                           key='%s|%s|parallel_for_impl|INTERNAL:count-negative' % (R3, file))
+        if bad_drop:
+            ctx.violation(R3, inst + ' count to m_SetSize',
+                          'the positive counts %s are turned into a value outside %s by the conversion %s *before* the guard on `%s` '
+                          'is evaluated, so the guard rejects them and parallel_for runs nothing (the guard has to test the count '
+                          'before it is narrowed)' % (fmt_intervals(bad_drop), fmt_intervals([(glo, ghi)]), ' -> '.join(first),
+                                                      info['param_name']), loc,
+                          key='%s|%s|parallel_for_impl|INTERNAL:count-rejected-after-narrowing' % (R3, file))
+        if mid:
+            ctx.violation(R3, inst + ' count to m_SetSize',
+                          'counts %s arrive at the task set size as a different value through %s' % (fmt_intervals(mid), label), loc,
+                          key='%s|%s|parallel_for_impl|INTERNAL:count-altered' % (R3, file))
         if big:
             ctx.violation(R3, inst + ' count to m_SetSize',
                           'counts %s do not survive %s (the enkiTS task set size is 32 bit): parallel_for runs only '
-                          'count mod 2^32 indices' % (fmt_intervals(big), label), loc,
+                          'count mod 2^32 indices' % (fmt_intervals(_merge_iv(big)), ' -> '.join(cc)), loc,
                           key='%s|%s|parallel_for_impl|INTERNAL:count-above-32-bit' % (R3, file))
         ic = info.get('index_chain')
         if ic and not neg:
@@ -2057,14 +2161,18 @@ def pub_outcome(tu, st_events, pub_id):
     return None
 
 
-def check_tokens(ctx, tu, inst, loc, key, events, outcome_of, owned0, require_empty_end=True):
+def check_tokens(ctx, tu, inst, loc, key, events, outcome_of, owned0, require_empty_end=True, requeue_takes_count=False):
     """running-count token discipline along one path.  owned0: tokens held at the start.  Returns list of problems."""
     R = 'R-C01-6'
     held = owned0          # tokens this thread holds (each stands for one +1 on m_RunningCount)
     executed = []          # tasks executed and not yet decremented
     bad = []
+    gave = False
     for e in events:
         kind = e[0]
+        if kind == 'requeue' and requeue_takes_count and e[2] and e[2][0] in held:
+            held.remove(e[2][0])     # the callee publishes a partition under the count its caller holds
+            gave = True
         if kind == 'inc':
             held.append(e[2])
         elif kind == 'pub':
@@ -2081,6 +2189,12 @@ def check_tokens(ctx, tu, inst, loc, key, events, outcome_of, owned0, require_em
                 held.remove(task)
         elif kind == 'exec':
             task = e[2][0] if e[2] else None
+            if task not in held and gave:
+                bad.append(('exec-uncovered', 'the running count this thread held for the partition it took from the pipe is handed to '
+                            'SplitAndAddTask (which publishes a partition without an increment of its own) before the thread runs the '
+                            'range it kept for itself: nothing counts that range while ExecuteRange runs, m_RunningCount can reach 0 and '
+                            'the join can return (and the task object die) while these indices are still running'))
+                return bad
             if task not in held:
                 bad.append(('exec-without-count', 'ExecuteRange runs a partition whose running count is not held by this thread'))
             else:
@@ -2240,6 +2354,7 @@ def check_split_and_add(ctx, tu, split_fn):
     r0 = Lin.atom(('init', rsp))
     bad = []
     und = []
+    borrows = [False]
     for stop, st in paths:
         if stop != H.id:
             bad.append(('loop-exit', 'the splitting loop can be left from inside its body while [start, end) is not yet empty'))
@@ -2249,6 +2364,19 @@ def check_split_and_add(ctx, tu, split_fn):
             und.append('an iteration does not call SplitTask')
             continue
         tb = check_tokens(ctx, tu, inst, loc, key, ev, lambda pid: pub_outcome(tu, st.events, pid), [])
+        if any(k_ == 'publish-before-increment' for k_, t_ in tb):
+            borrows[0] = True
+            pids = {p_['id'] for p_ in f['params']}
+            for e_ in st.events:
+                if e_[0] == 'branch':
+                    cn_ = tu.node(e_[1])
+                    if any(x.get('kind') == 'DeclRefExpr' and x.get('referencedDecl', {}).get('id') in pids and
+                           clean_type(tu.sd(x).get('ct')) == 'bool' for x in tu.walk(cn_)):
+                        tb = [(k_, t_ + ' (here the increment is skipped when `%s` is %s: the partition is published under a count '
+                               'that belongs to the caller, which then no longer covers what the caller itself is still running)'
+                               % (tu.show(cn_), 'true' if e_[2] else 'false') if k_ == 'publish-before-increment' else t_)
+                              for k_, t_ in tb]
+                        break
         bad += tb
         # exact cover: what was consumed (published successfully or executed) + what remains == [s0, e0)
         consumed = []
@@ -2305,6 +2433,7 @@ def check_split_and_add(ctx, tu, split_fn):
     if not bad and not und:
         ctx.ok(R, inst, '%d iteration paths: increment precedes publication, inline execution is followed by one decrement, '
                'consumed + remaining = exact cover' % len(paths), loc)
+    return borrows[0]
 
 
 def bool_var_cond(tu, cond):
@@ -2543,7 +2672,7 @@ def acquire_helper(tu, f):
     return k
 
 
-def check_try_run_task(ctx, tu, split_fn):
+def check_try_run_task(ctx, tu, split_fn, requeue_takes_count=False):
     R = 'R-C01-6'
     fs = tu.fns(q=TS + 'TryRunTask', dep=False)
     inst = '[INTERNAL] TaskScheduler::TryRunTask'
@@ -2618,7 +2747,8 @@ def check_try_run_task(ctx, tu, split_fn):
                 ctx.undecided(R, inst, 'region entered after the pipe read is not loop-free (%s)' % e, loc)
             for stop, st in (paths or []):
                 ev = [e for e in st.events if e[0] != 'branch']
-                for k, t in check_tokens(ctx, tu, inst, loc, key, ev, lambda pid: None, [p0]):
+                for k, t in check_tokens(ctx, tu, inst, loc, key, ev, lambda pid: None, [p0],
+                                         requeue_takes_count=requeue_takes_count):
                     probs.add((k, t))
                 pieces = [e[2] for e in ev if e[0] in ('exec', 'requeue')]
                 if any(p is None or None in p for p in pieces):
@@ -2644,6 +2774,8 @@ def check_try_run_task(ctx, tu, split_fn):
                         probs.add(('cover', msg + ': indices are run twice or never'))
                     else:
                         ctx.undecided(R, inst, msg + ' (bounds not in a recognised form)', loc)
+    if any(k == 'exec-uncovered' for k, t in probs):
+        probs = {(k, t) for k, t in probs if k != 'missing-decrement'}     # explained by the count that was given away
     for k, t in sorted(probs):
         ctx.violation(R, inst, t, loc, key=key(k))
     if not probs:
@@ -3977,8 +4109,8 @@ def run(ctx):
     check_add_task_set(ctx, tu_enki)
     check_wait_for_task(ctx, tu_enki)
     split_fn = check_split_task(ctx, tu_enki)
-    check_split_and_add(ctx, tu_enki, split_fn if split_fn is not None else find_split_task(tu_enki))
-    check_try_run_task(ctx, tu_enki, split_fn if split_fn is not None else find_split_task(tu_enki))
+    takes = check_split_and_add(ctx, tu_enki, split_fn if split_fn is not None else find_split_task(tu_enki))
+    check_try_run_task(ctx, tu_enki, split_fn if split_fn is not None else find_split_task(tu_enki), bool(takes))
     n = check_count_stores(ctx, tu_enki)
     check_pipe_protocol(ctx, tu_enki)
     ctx.floor('R-C01-6(d)', n, 1, 'the reset of m_RunningCount in AddTaskSetToPipe')
